@@ -221,6 +221,15 @@ def rule_sign(ctx: Ctx, data):
                 for t in x.targets:
                     if isinstance(t, ast.Attribute) and t.attr in END_FIELDS | START_FIELDS and not (norm(t.value) == "self" and qual.endswith("__init__")):
                         targets.append((t.attr, x.value, x))
+            if isinstance(x, ast.AugAssign) and isinstance(x.target, ast.Attribute) and x.target.attr in END_FIELDS | START_FIELDS:
+                sg = sg or Sign(fn)
+                n += 1
+                grows_ok = (isinstance(x.op, ast.Sub) and sg.nonneg(x.value)) if x.target.attr in START_FIELDS or True else False
+                # `end -= d` is a trim (allowed only for a provably non-negative d); `end += d` needs d >= 0 as well; starts symmetrically
+                ok = isinstance(x.op, (ast.Sub, ast.Add)) and sg.nonneg(x.value)
+                ctx.ob("R-C02-4", f"{qual}/{x.target.attr}", ok,
+                       f"in-place adjustment of a span override by `{norm(x.value)[:60]}`, which is not shown to be non-negative (an unguarded length difference "
+                       "can be negative or its operands None)", node=x, mod=mod, statement=norm(x)[:90])
             if isinstance(x, ast.Call) and dotted(x.func) and dotted(x.func).split(".")[-1] in repo.classes \
                     and repo.is_subclass(dotted(x.func).split(".")[-1], "CitationBase"):
                 for k in x.keywords:
